@@ -1320,6 +1320,11 @@ func (sa *Application) tryPlaceholderAllocate(nodeIterator func() NodeIterator, 
 	if phFit != nil && reqFit != nil {
 		resKey := reqFit.GetAllocationKey()
 		iterator.ForEachNode(func(node *Node) bool {
+			// the node the placeholder runs on was tried for the in place swap already: adding the real allocation
+			// next to the placeholder would be confirmed as an in place swap and leave the node usage too high
+			if node.NodeID == phFit.GetNodeID() {
+				return true
+			}
 			if !node.IsSchedulable() {
 				log.Log(log.SchedApplication).Debug("skipping node for placeholder alloc as state is unschedulable",
 					zap.String("allocationKey", resKey),
